@@ -70,6 +70,7 @@ type simPC struct {
 	once    sync.Once
 	readErr chan error // injected read error
 	quiet   bool       // do not log open/close (client and peer sockets)
+	closeErr bool      // Close releases the socket and then REPORTS an error (a wrapped or instrumented socket may)
 }
 
 func (n *simNet) listenUDP(ip net.IP, port int, quiet bool) (*simPC, error) {
@@ -145,6 +146,9 @@ func (p *simPC) Close() error {
 		}
 		p.n.mu.Unlock()
 	})
+	if p.closeErr {
+		return errors.New("simnet: close reported an error")
+	}
 	return nil
 }
 func (p *simPC) LocalAddr() net.Addr              { return p.addr }
@@ -241,6 +245,7 @@ type simConn struct {
 	dl       chan struct{} // closed when a deadline in the past is set
 	dlOnce   sync.Once
 	wdl      time.Time // write deadline (zero = none); like a real socket it stays in force until it is changed
+	failWrite error    // injected: every Write fails with this error (the other end reset the connection)
 	tag      string
 }
 
@@ -275,8 +280,11 @@ func (c *simConn) Read(p []byte) (int, error) {
 
 func (c *simConn) Write(p []byte) (int, error) {
 	c.closedMu.Lock()
-	wdl := c.wdl
+	wdl, fw := c.wdl, c.failWrite
 	c.closedMu.Unlock()
+	if fw != nil {
+		return 0, fw
+	}
 	if !wdl.IsZero() && !time.Now().Before(wdl) {
 		return 0, errors.New("simnet: write i/o timeout")
 	}
